@@ -440,6 +440,11 @@ fn c04(agent: &PathBuf, opts: &Opts, sink: &mut Sink) {
     } else {
         let n = 2usize;
         cases.push(format!("c04;n={n};fault=none"));
+        for pos in 4..=(4 + n) {
+            for k in 0..8 {
+                cases.push(format!("c04;n={n};fault={pos}:{}", Fault::RpcErrorTag(k).token()));
+            }
+        }
         for pos in 1..=(6 + n) {
             for f in [Fault::RpcError, Fault::ErrWarnOk, Fault::ErrLoadSuccess, Fault::Malformed, Fault::WrongId, Fault::CloseBefore, Fault::WarnOk] {
                 if !opts.thorough() && matches!(f, Fault::ErrWarnOk | Fault::WrongId) && pos % 2 == 0 {
